@@ -1,4 +1,5 @@
 import Rie.Model.Sys.Types
+import Rie.Model.ErrType
 /-
 The transition functions of the system model. Every function mirrors a Go function; the
 comment above it names that function. `settle` runs the internal moves to quiescence.
@@ -153,6 +154,10 @@ def currentId (s : State) : Option Nat := s.resv.map (·.k)
 def release (s : State) : State := { s with resv := none }
 
 
+/-- `fatalerror.GetValidRuntimeOrFunctionErrorType` on the header value (the byte-level model of C20) -/
+def sanitizeType (t : String) : String :=
+  String.fromUTF8! ⟨(Rie.ErrType.sanitize t.toUTF8.toList).toArray⟩
+
 /-! ### Runtime API handlers (lambda/rapi/handler/*.go) -/
 
 /-- run the non-blocking prefix of a runtime state-machine program under the runtime's mutex.
@@ -216,10 +221,10 @@ def wakeRt (s : State) : Option State :=
 def maxPayload : Nat := 6 * 1024 * 1024 + 100
 
 /-- common tail of response / error: `SendResponse`/`SendErrorResponse` then `ResponseSent` -/
-def rtDeliver (s : State) (call : String) (k : Nat) (body : String) (oversize : Bool) : State :=
-  if oversize then
-    -- ErrorResponseTooLarge → SendErrorResponse(Function.ResponseSizeTooLarge) → ResponseSent → 413
-    let (s, r) := sendReply s k "errjson:Function.ResponseSizeTooLarge"
+def rtDeliver (s : State) (call : String) (k : Nat) (body : String) (oversize : Option Nat) : State :=
+  if let some size := oversize then
+    -- ErrorResponseTooLarge → SendErrorResponse(Function.ResponseSizeTooLarge, stating both sizes) → ResponseSent → 413
+    let (s, r) := sendReply s k s!"errjson:Function.ResponseSizeTooLarge:{size}:{maxPayload}"
     match r with
     | .ok =>
       match s.rt with
@@ -262,7 +267,7 @@ def rtResponse (s : State) (idk : Option Nat) (size : Nat) (hash : String) (badM
       if badMode then
         let (s, _) := sendReply s k "empty"
         reply s "rt" "response" "400,InvalidFunctionResponseMode"
-      else rtDeliver s "response" k (if size == 0 then "empty" else s!"bytes:{hash}") (size > maxPayload)
+      else rtDeliver s "response" k (if size == 0 then "empty" else s!"bytes:{hash}") (if size > maxPayload then some size else none)
   | _, _ => reply s "rt" "response" "neterr"
 
 /-- POST /runtime/invocation/{id}/error -/
@@ -274,7 +279,7 @@ def rtError (s : State) (idk : Option Nat) (etype : String) : State :=
     | none => reply s "rt" "error" "403,InvalidStateTransition"
     | some is =>
       let (s, st', _, _) := runRtInstrs s st is
-      rtDeliver { s with rt := some st' } "error" k s!"errjson:{etype}" false
+      rtDeliver { s with rt := some st' } "error" k s!"errjson:{etype}" none
   | _, _ => reply s "rt" "error" "neterr"
 
 /-- POST /runtime/init/error -/
@@ -286,7 +291,7 @@ def rtInitError (s : State) (etype : String) : State :=
       match rtProg st .restoreError with
       | none => reply s "rt" "initerror" "403,InvalidStateTransition"
       | some is => let (s, st', _, _) := runRtInstrs s st is
-                   reply { s with rt := some st', restoreUserType := etype } "rt" "initerror" "202"
+                   reply { s with rt := some st', restoreUserType := sanitizeType etype } "rt" "initerror" "202"
     else
     match rtProg st .initError with
     | none => reply s "rt" "initerror" "403,InvalidStateTransition"
@@ -314,7 +319,7 @@ def rtRestoreError (s : State) (etype : String) : State :=
     | none => reply s "rt" "restoreerror" "403,InvalidStateTransition"
     | some is =>
       let (s, st', _, _) := runRtInstrs s st is
-      reply { s with rt := some st', restoreUserType := etype } "rt" "restoreerror" "202"
+      reply { s with rt := some st', restoreUserType := sanitizeType etype } "rt" "restoreerror" "202"
 
 /-- GET /credentials (snapshot mode only): served only for the per-instance token -/
 def rtCreds (s : State) (tok : String) : State :=
